@@ -14,6 +14,7 @@ import Gecs.Model.Check
 import Gecs.Gen.Consts
 import Gecs.Model.Events
 import Gecs.Model.Borrow
+import Gecs.Model.Faults
 
 namespace Gecs.Driver
 open Gecs
@@ -577,24 +578,12 @@ def stepShort (d : DS) (op : List String) (implObs implSum : String) : String ×
           -- column-minor; archetypes cloned completely before are dropped during the unwind,
           -- the partially built one is leaked; the source world is untouched
           let k := fault.getD 0
-          let perArch : List (List Val) := w.archs.map (fun s =>
-            (List.range s.len).flatMap (fun i => s.cols.filterMap (fun c => c[i]?)))
-          let rec split (archs : List (List Val)) (k : Nat) (doneToks : Nat) (doneZ : Nat) :
-              Nat × Nat × Nat × Nat :=   -- (non-zst tokens of complete archetypes, their zst count, partial non-zst, partial zst)
-            match archs with
-            | [] => (doneToks, doneZ, 0, 0)
-            | a :: rest =>
-              let nz := (a.filter (·.tok ≠ 0)).length
-              if k < nz then
-                -- fault inside this archetype: cells before the k-th non-zst one were cloned
-                let rec pre (l : List Val) (k : Nat) (t z : Nat) : Nat × Nat :=
-                  match l with
-                  | [] => (t, z)
-                  | v :: l' => if v.tok = 0 then pre l' k t (z + 1) else if k = 0 then (t, z) else pre l' (k - 1) (t + 1) z
-                let (pt, pz) := pre a k 0 0
-                (doneToks, doneZ, pt, pz)
-              else split rest (k - nz) (doneToks + nz) (doneZ + (a.length - nz))
-          let (dT, dZ, pT, pZ) := split perArch k 0 0
+          -- which clones were made and then dropped / leaked: Model/Faults.lean (`cloneFault`,
+          -- theorems in Lemmas/Faults.lean: every clone made is dropped or leaked exactly once, in order)
+          let isZV : Val → Bool := fun v => decide (v.tok = 0)
+          let (dT, dZ, pT, pZ) := match cloneFault isZV w.clonePerArch k with
+            | some o => (nzCount isZV o.dropped, zCount isZV o.dropped, nzCount isZV o.leaked, zCount isZV o.leaked)
+            | none => (expected.length, zc, 0, 0)
           let okPairs := pairs.length == dT + pT ∧ srcs == expected.take (dT + pT) ∧ dsts.Nodup
           let dropped := (dsts.take dT).map (fun t => (⟨t, 0⟩ : Val)) ++ List.replicate dZ ⟨0, 0⟩
           let mapS := if okPairs then mapStr else s!"map=EXPECTED-SRCS:{joinWith "," ((expected.take (dT + pT)).map toString)}"
@@ -629,22 +618,12 @@ def stepShort (d : DS) (op : List String) (implObs implSum : String) : String ×
             -- the k-th Drop::drop panics inside one storage's drop: the rest of that storage's
             -- cells are leaked, the other archetypes are still dropped during the unwind
             let k := fault.getD 0
-            let perArch : List (List Val) := w.archs.map (fun s => s.cols.flatMap (fun c => c.take s.len))
-            let rec go (archs : List (List Val)) (k : Nat) (hit : Bool) (dropped : List Val) (leakT leakZ : Nat) :
-                List Val × Nat × Nat :=
-              match archs with
-              | [] => (dropped, leakT, leakZ)
-              | a :: rest =>
-                let nz := (a.filter (·.tok ≠ 0)).length
-                if hit || k ≥ nz then go rest (k - nz) hit (dropped ++ a) leakT leakZ
-                else
-                  let rec cut (l : List Val) (k : Nat) (acc : List Val) : List Val × List Val :=
-                    match l with
-                    | [] => (acc, [])
-                    | v :: l' => if v.tok = 0 then cut l' k (acc ++ [v]) else if k = 0 then (acc ++ [v], l') else cut l' (k - 1) (acc ++ [v])
-                  let (dr, lk) := cut a k []
-                  go rest 0 true (dropped ++ dr) (leakT + (lk.filter (·.tok ≠ 0)).length) (leakZ + (lk.filter (·.tok = 0)).length)
-            let (dropped, lT, lZ) := go perArch k false [] 0 0
+            -- Model/Faults.lean (`dropFault`; Lemmas/Faults.lean: dropped ++ leaked is a permutation of
+            -- everything owned, nothing dropped twice, the leak is the rest of ONE archetype)
+            let isZV : Val → Bool := fun v => decide (v.tok = 0)
+            let (dropped, lT, lZ) := match dropFault isZV w.dropPerArch k with
+              | some o => (o.dropped, nzCount isZV o.leaked, zCount isZV o.leaked)
+              | none => (vals, 0, 0)
             ("panic Injected" ++ dropsSuffix dropped,
               { d with worlds := d.worlds.set i none, leaked := d.leaked + lT, zleaked := d.zleaked + lZ })
           else ("ok" ++ dropsSuffix vals, { d with worlds := d.worlds.set i none })
